@@ -50,6 +50,14 @@ func (m Methods) getAuthenContinue(request tq.Request) *tq.AuthenContinue {
 
 // GetPassword will get the password from an authenstart or authencontinue packet
 func (m Methods) GetPassword(request tq.Request) (string, error) {
+	// a body can be laid out so that it decodes both as a start and as a continue packet. only the
+	// first packet of a session, sequence number 1, is a start packet; anything later is the
+	// client's answer and its user message is the password that was presented
+	if request.Header.SeqNo != 1 {
+		if body := m.getAuthenContinue(request); body != nil {
+			return string(body.UserMessage), nil
+		}
+	}
 	if body := m.getAuthenStart(request); body != nil {
 		return string(body.Data), nil
 	}
